@@ -893,7 +893,7 @@ Qed.
 (* 7. C12, function level: the Close payload round trip and the reply                           *)
 (* ------------------------------------------------------------------------------------------ *)
 
-Ltac Zify.zify_post_hook ::= Z.div_mod_to_equations.
+Local Ltac Zify.zify_post_hook ::= Z.div_mod_to_equations.
 
 Lemma to_be_2 c : c < 65536 -> to_be 2 c = [c / 256; c mod 256].
 Proof.
@@ -1548,4 +1548,1447 @@ Proof.
   intros Hs Erf Hok Hpl Hp.
   pose proof (peer_close_decodes p Hp) as Hdec. rewrite <- Hpl in Hdec.
   eexists. split; [exact (rmf_close_ack x w f c1 w1 _ Hs Erf Hok Hdec)|]. split; reflexivity.
+Qed.
+
+(* ------------------------------------------------------------------------------------------ *)
+(* 9. bytes: what is written to the transport or still in out_buffer                            *)
+(* ------------------------------------------------------------------------------------------ *)
+
+Definition encq (l : list frame) : bytes := concat (map frame_format l).
+
+Lemma encq_app a b : encq (a ++ b) = encq a ++ encq b.
+Proof. unfold encq. rewrite map_app, concat_app. reflexivity. Qed.
+
+(* over the events l, out_buffer went from out to out': bytes written ++ bytes left = old bytes ++ new frames *)
+Definition SendsL (out : bytes) (l : list event) (out' : bytes) : Prop :=
+  wire l ++ out' = out ++ encq (queued l).
+
+Lemma SendsL_nil out : SendsL out [] out.
+Proof. unfold SendsL. cbn. rewrite app_nil_r. reflexivity. Qed.
+
+Lemma SendsL_trans o l1 o1 l2 o2 : SendsL o l1 o1 -> SendsL o1 l2 o2 -> SendsL o (l1 ++ l2) o2.
+Proof.
+  unfold SendsL. intros H1 H2. rewrite wire_app, queued_app, encq_app, <- app_assoc, H2, !app_assoc, H1.
+  reflexivity.
+Qed.
+
+Definition Sends (x : ctx) (w : world) (x' : ctx) (w' : world) : Prop :=
+  exists l, ext w w' l /\ SendsL (c_out (x_codec x)) l (c_out (x_codec x')).
+
+Lemma Sends_refl x w : Sends x w x w.
+Proof. exists []. split; [apply ext_refl|apply SendsL_nil]. Qed.
+
+Lemma Sends_trans x w x1 w1 x2 w2 : Sends x w x1 w1 -> Sends x1 w1 x2 w2 -> Sends x w x2 w2.
+Proof.
+  intros [l1 [E1 S1]] [l2 [E2 S2]]. exists (l1 ++ l2).
+  split; [eapply ext_trans; eassumption|eapply SendsL_trans; eassumption].
+Qed.
+
+Lemma firstn_length_app {A} (a b : list A) : firstn (length a) (a ++ b) = a.
+Proof. induction a as [|x a IH]; [destruct b; reflexivity|]. cbn. rewrite IH. reflexivity. Qed.
+Lemma skipn_length_app {A} (a b : list A) : skipn (length a) (a ++ b) = b.
+Proof. induction a as [|x a IH]; [reflexivity|]. cbn. exact IH. Qed.
+
+Lemma frame_format_into_buf_eq buf f : frame_format_into_buf buf f = buf ++ frame_format f.
+Proof.
+  unfold frame_format_into_buf, frame_format, takeN, dropN, blen. rewrite Nat2N.id.
+  destruct (h_mask (f_hdr f)) as [k|].
+  - rewrite firstn_length_app, skipn_length_app, <- app_assoc. reflexivity.
+  - rewrite <- app_assoc. reflexivity.
+Qed.
+
+Lemma wire_wr_only l : Forall wr_event l -> queued l = [].
+Proof. exact (queued_wr_events l). Qed.
+
+Lemma write_out_buffer_sends c w r c' w' :
+  write_out_buffer c w = (r, c', w') ->
+  exists l, ext w w' l /\ Forall wr_event l /\ SendsL (c_out c) l (c_out c') /\
+    c_max_out c' = c_max_out c /\ c_write_len c' = c_write_len c /\
+    (r = ROk tt -> c_out c' = []) /\ ((r = ROk tt) \/ exists k, r = RErr (EIo k)).
+Proof.
+  intros H. apply write_out_buffer_spec in H.
+  destruct H as [l [Hl [Hf [_ [Hm [Hw [_ [_ [_ [_ Hr]]]]]]]]]].
+  exists l. split; [exact Hl|]. split; [exact Hf|].
+  unfold SendsL. rewrite (queued_wr_events _ Hf). cbn [encq map concat]. rewrite app_nil_r.
+  destruct Hr as [[-> [Ho Hwi]]|[k [-> Hwi]]].
+  - rewrite Ho, app_nil_r. repeat split; auto.
+  - repeat split; auto; try discriminate. right. exists k. reflexivity.
+Qed.
+
+Lemma codec_buffer_frame_sends c f w r c' w' :
+  codec_buffer_frame c f w = (r, c', w') ->
+  exists l, ext w w' l /\ SendsL (c_out c) l (c_out c') /\
+    c_max_out c' = c_max_out c /\ c_write_len c' = c_write_len c /\
+    ((r = RErr (EWriteBufferFull f) /\ l = []) \/
+     (not_full r /\ exists l2, l = EvQueue f :: l2 /\ Forall wr_event l2)).
+Proof.
+  unfold codec_buffer_frame. destruct (c_max_out c <? frame_len f + blen (c_out c)).
+  - intros H. inversion H; subst. exists []. split; [apply ext_refl|]. split; [apply SendsL_nil|].
+    repeat split. left. split; reflexivity.
+  - set (c1 := set_out c (frame_format_into_buf (c_out c) f)).
+    assert (S1 : SendsL (c_out c) [EvQueue f] (c_out c1)).
+    { unfold SendsL, c1. cbn. rewrite frame_format_into_buf_eq, app_nil_r. reflexivity. }
+    destruct (c_write_len c <? blen (c_out c1)).
+    + intros H. pose proof (write_out_buffer_not_full _ _ _ _ _ H) as Hnf.
+      apply write_out_buffer_sends in H. destruct H as [l2 [El [Hf [S2 [Hm [Hw _]]]]]].
+      exists ([EvQueue f] ++ l2). split.
+      { unfold ext in *. rewrite El. unfold w_emit. cbn [w_log]. rewrite <- app_assoc. reflexivity. }
+      split; [eapply SendsL_trans; eassumption|]. split; [exact Hm|]. split; [exact Hw|].
+      right. split; [exact Hnf|]. exists l2. split; [reflexivity|exact Hf].
+    + intros H. inversion H; subst; clear H. exists [EvQueue f]. split; [reflexivity|].
+      split; [exact S1|]. repeat split. right. split; [intros g; discriminate|].
+      exists []. split; [reflexivity|constructor].
+Qed.
+
+Lemma w_next_key_fields w :
+  w_log (snd (w_next_key w)) = w_log w /\ w_rds (snd (w_next_key w)) = w_rds w /\
+  w_wrs (snd (w_next_key w)) = w_wrs w /\ w_fls (snd (w_next_key w)) = w_fls w.
+Proof. unfold w_next_key. destruct (w_keys w); repeat split. Qed.
+
+Lemma buffer_frame_sends x f w r x' w' :
+  buffer_frame x f w = (r, x', w') ->
+  exists l, ext w w' l /\ SendsL (c_out (x_codec x)) l (c_out (x_codec x')) /\
+    c_max_out (x_codec x') = c_max_out (x_codec x) /\ c_write_len (x_codec x') = c_write_len (x_codec x) /\
+    ((r = RErr (EWriteBufferFull (out_frame x w f)) /\ l = []) \/
+     (not_full r /\ exists l2, l = EvQueue (out_frame x w f) :: l2 /\ Forall wr_event l2)).
+Proof.
+  unfold buffer_frame, out_frame. intros H.
+  destruct (x_role x) eqn:Er.
+  - destruct (codec_buffer_frame (x_codec x) f w) as [[r0 c'] w2] eqn:E.
+    destruct (check_connection_reset r0 (x_state x)) as [r1 s1] eqn:Ec.
+    inversion H; subst; clear H. cbn [x_codec set_state set_codec].
+    apply ccr_spec in Ec. destruct Ec as [_ [Hnf [Hf _]]].
+    apply codec_buffer_frame_sends in E. destruct E as [l [El [S [Hm [Hw Hd]]]]].
+    exists l. repeat split; try assumption.
+    destruct Hd as [[-> ->]|[Hn Hl]].
+    + left. destruct (Hf f eq_refl) as [-> _]. split; reflexivity.
+    + right. split; [apply Hnf; exact Hn|exact Hl].
+  - destruct (w_next_key w) as [k wk] eqn:Ek.
+    destruct (codec_buffer_frame (x_codec x) _ wk) as [[r0 c'] w2] eqn:E.
+    destruct (check_connection_reset r0 (x_state x)) as [r1 s1] eqn:Ec.
+    inversion H; subst; clear H. cbn [x_codec set_state set_codec fst].
+    apply ccr_spec in Ec. destruct Ec as [_ [Hnf [Hf _]]].
+    assert (Hlog : w_log wk = w_log w) by (rewrite <- (w_next_key_log w), Ek; reflexivity).
+    apply codec_buffer_frame_sends in E. destruct E as [l [El [S [Hm [Hw Hd]]]]].
+    exists l. split; [unfold ext in *; rewrite El, Hlog; reflexivity|]. repeat split; try assumption.
+    destruct Hd as [[-> ->]|[Hn Hl]].
+    + left. destruct (Hf _ eq_refl) as [-> _]. split; reflexivity.
+    + right. split; [apply Hnf; exact Hn|exact Hl].
+Qed.
+
+Lemma buffer_frame_Sends x f w r x' w' : buffer_frame x f w = (r, x', w') -> Sends x w x' w'.
+Proof.
+  intros H. apply buffer_frame_sends in H. destruct H as [l [El [S _]]]. exists l. split; assumption.
+Qed.
+
+Lemma set_additional_codec x g : x_codec (set_additional x g) = x_codec x.
+Proof. apply set_additional_fields. Qed.
+
+Lemma write_add_Sends x0 w0 r1 x1 w1 : write_add x0 w0 = (r1, x1, w1) -> Sends x0 w0 x1 w1.
+Proof.
+  unfold write_add. destruct (x_additional x0) as [msg|].
+  - destruct (buffer_frame (set_additional_raw x0 None) msg w0) as [[rb xb] wb] eqn:Eb.
+    apply buffer_frame_Sends in Eb. intros H.
+    assert (S' : Sends x0 w0 xb wb) by exact Eb.
+    destruct rb as [u|e|s|]; try (inversion H; subst; exact S').
+    destruct e; inversion H; subst; try exact S'.
+    destruct S' as [l [El S']]. exists l. split; [exact El|]. rewrite set_additional_codec. exact S'.
+  - intros H. inversion H; subst. apply Sends_refl.
+Qed.
+
+Lemma write_tail_Sends r1 x1 w1 r x' w' : write_tail r1 x1 w1 = (r, x', w') -> Sends x1 w1 x' w'.
+Proof.
+  unfold write_tail. intros H.
+  destruct r1 as [sf|e|s|]; try (inversion H; subst; apply Sends_refl).
+  destruct (role_eqb (x_role x1) Server && closing_done (x_state x1) && _).
+  - destruct (write_out_buffer (x_codec x1) w1) as [[rw c'] w2] eqn:Ew.
+    apply write_out_buffer_sends in Ew. destruct Ew as [l [El [_ [S _]]]].
+    assert (S' : Sends x1 w1 (set_codec x1 c') w2) by (exists l; split; assumption).
+    destruct rw; inversion H; subst; exact S'.
+  - inversion H; subst. apply Sends_refl.
+Qed.
+
+Lemma write_Sends x data w r x' w' : write_ x data w = (r, x', w') -> Sends x w x' w'.
+Proof.
+  rewrite write_unfold.
+  destruct (match data with Some f => buffer_frame x f w | None => (ROk tt, x, w) end) as [[r0 x0] w0] eqn:E0.
+  assert (S0 : Sends x w x0 w0).
+  { destruct data as [d|]; [exact (buffer_frame_Sends _ _ _ _ _ _ E0)|]. inversion E0; subst. apply Sends_refl. }
+  destruct r0 as [u|e|s|]; intros H; try (inversion H; subst; exact S0).
+  destruct (write_add x0 w0) as [[r1 x1] w1] eqn:E1.
+  apply write_add_Sends in E1. apply write_tail_Sends in H. eauto using Sends_trans.
+Qed.
+
+(* flush: on Ok the out_buffer is empty and the log ends with a successful transport flush *)
+Lemma flush_Sends x w r x' w' :
+  flush x w = (r, x', w') ->
+  Sends x w x' w' /\
+  (r = ROk tt -> c_out (x_codec x') = [] /\ x_unflushed x' = false /\
+     exists l, ext w w' (l ++ [EvFlush FlOk]) /\ SendsL (c_out (x_codec x)) l []).
+Proof.
+  unfold flush. destruct (write_ x None w) as [[r0 x0] w0] eqn:E0.
+  apply write_Sends in E0.
+  destruct r0 as [u|e|s|]; intros H; try (inversion H; subst; split; [exact E0|discriminate]).
+  destruct (write_out_buffer (x_codec x0) w0) as [[r1 c1] w1] eqn:E1.
+  apply write_out_buffer_sends in E1. destruct E1 as [l1 [El1 [_ [S1 [_ [_ [Hout Hr1]]]]]]].
+  assert (S01 : Sends x0 w0 (set_codec x0 c1) w1) by (exists l1; split; assumption).
+  destruct r1 as [u1|e|s|]; try (inversion H; subst; split; [eauto using Sends_trans|discriminate]).
+  destruct (w_flush w1) as [r2 w2] eqn:E2. apply w_flush_spec in E2.
+  destruct E2 as [e [El2 [Hr2 _]]].
+  assert (S12 : forall b, Sends (set_codec x0 c1) w1 (set_unflushed (set_codec x0 c1) b) w2).
+  { intros b. exists [EvFlush e]. split; [exact El2|]. unfold SendsL. cbn. rewrite app_nil_r. reflexivity. }
+  assert (S12' : Sends (set_codec x0 c1) w1 (set_codec x0 c1) w2).
+  { exists [EvFlush e]. split; [exact El2|]. unfold SendsL. cbn. rewrite app_nil_r. reflexivity. }
+  destruct r2 as [u2|e2|s2|]; inversion H; subst; clear H;
+    try (split; [eauto using Sends_trans|discriminate]).
+  split; [eauto using Sends_trans|]. intros _.
+  cbn [x_codec x_unflushed set_unflushed set_codec]. split; [apply Hout; destruct u1; reflexivity|].
+  split; [reflexivity|].
+  destruct E0 as [l0 [El0 S0]]. exists (l0 ++ l1).
+  assert (He : e = FlOk) by (apply Hr2; destruct u2; reflexivity). subst e.
+  split.
+  - unfold ext in *. rewrite El2, El1, El0, <- !app_assoc. reflexivity.
+  - pose proof (SendsL_trans _ _ _ _ _ S0 S1) as S. cbn [x_codec set_codec] in S.
+    rewrite (Hout ltac:(destruct u1; reflexivity)) in S. exact S.
+Qed.
+
+(* ------------------------------------------------------------------------------------------ *)
+(* 10. C11: the pong is parked when the ping is delivered                                       *)
+(* ------------------------------------------------------------------------------------------ *)
+
+Lemma pend_inv_set p s s' g :
+  pend_inv p s -> (s' = Active -> s = Active) ->
+  (is_pong g = true \/ (is_close g = true /\ s' <> Active)) ->
+  pend_inv (pend_set p g) s'.
+Proof.
+  intros Hp Hs Hg. destruct p as [f|]; [|exact Hg]. cbn [pend_set].
+  destruct (is_pong f) eqn:Ef; [exact Hg|]. cbn [pend_inv]. rewrite Ef.
+  destruct Hp as [Hp|[H1 H2]]; [rewrite Ef in Hp; discriminate|]. right. split; [exact H1|auto].
+Qed.
+
+Lemma PInv_of_PP x' p s :
+  PP x' = p -> x_state x' = s -> pend_inv p s -> PInv x'.
+Proof. intros <- <- H. exact H. Qed.
+
+(* every operation keeps the invariant on additional_send (no assumption on the ops) *)
+Lemma pinv_step x o w res x' w' : run_op x o w = (res, x', w') -> PInv x -> PInv x'.
+Proof.
+  intros H HP. unfold PInv in HP.
+  assert (Hkeep : forall q q', st_step (x_state x) (x_state x') -> Moves q (PP x) q' (PP x') -> PInv x').
+  { intros q q' Hs HM. unfold PInv. eapply pend_inv_keep; [exact HP|exact (Moves_pend _ _ _ _ HM)|].
+    exact (st_step_active _ _ Hs). }
+  destruct o as [|m| |c| | |wbs mx]; cbn [run_op] in H.
+  - destruct (read x w) as [[r x1] w1] eqn:E. inversion H; subst; clear H.
+    apply read_spec in E. destruct E as [_ [_ E]].
+    destruct r as [m|e|s|]; try (destruct E as [A B]; eapply Hkeep; eassumption).
+    destruct m as [b|b|b|b|cl|f]; try (destruct E as [A B]; eapply Hkeep; eassumption).
+    + destruct E as [[A [B [a [C D]]]]|[A [B C]]]; [|eapply Hkeep; eassumption].
+      unfold PInv, PP. rewrite D, pend_set_unmask, B.
+      apply pend_inv_set with (s := x_state x); [|auto|left; reflexivity].
+      eapply pend_inv_keep; [exact HP|exact (Moves_pend _ _ _ _ C)|auto].
+    + destruct E as [[A [B [_ [a [C D]]]]]|[A [B C]]].
+      * unfold PInv, PP. rewrite D, pend_set_unmask, B.
+        apply pend_inv_set with (s := x_state x); [|discriminate|right; split; [reflexivity|discriminate]].
+        eapply pend_inv_keep; [exact HP|exact (Moves_pend _ _ _ _ C)|auto].
+      * unfold PInv. eapply pend_inv_keep; [exact HP|exact (Moves_pend _ _ _ _ C)|].
+        rewrite B. discriminate.
+  - destruct (write x m w) as [[r x1] w1] eqn:E. inversion H; subst; clear H.
+    apply write_msg_spec in E. destruct E as [_ [_ [_ [[A [-> ->]]|[A E]]]]]; [exact HP|].
+    assert (Hdata : (st_step Active (x_state x') /\
+           exists ins, (ins = [] \/ ins = map unmask (olist (msg_frame m))) /\
+                       Moves (QQ w ++ ins) (PP x) (QQ w') (PP x')) -> PInv x').
+    { intros [B [ins [_ HM]]]. eapply Hkeep; [rewrite A; exact B|exact HM]. }
+    destruct m as [d|d|d|d|c|f]; try (apply Hdata; exact E).
+    + destruct E as [B C]. unfold PInv.
+      eapply pend_inv_keep with (s := Active);
+        [|exact (Moves_pend _ _ _ _ C)|intros _; reflexivity].
+      apply pend_inv_set with (s := x_state x); [exact HP|auto|left; reflexivity].
+    + destruct E as [B C]. unfold PInv.
+      assert (Hna : x_state x' <> Active) by (destruct B as [->| ->]; discriminate).
+      destruct (Moves_pend _ _ _ _ C) as [->| ->]; [|exact I]. right. split; [reflexivity|exact Hna].
+  - destruct (flush x w) as [[r x1] w1] eqn:E. inversion H; subst; clear H.
+    apply flush_keeps in E. destruct E as [_ [A [_ [_ B]]]]. eapply Hkeep; eassumption.
+  - destruct (close x c w) as [[r x1] w1] eqn:E. inversion H; subst; clear H.
+    apply close_spec in E. destruct E as [_ [_ [_ [[A [B C]]|[A [B C]]]]]]; [|eapply Hkeep; eassumption].
+    assert (Hna : x_state x' <> Active) by (destruct B as [->| ->]; discriminate).
+    unfold PInv. destruct (Moves_pend _ _ _ _ C) as [->| ->]; [|exact I].
+    right. split; [reflexivity|exact Hna].
+  - inversion H; subst. exact HP.
+  - inversion H; subst. exact HP.
+  - destruct (config_valid _); inversion H; subst; exact HP.
+Qed.
+
+Lemma pinv_run ops : forall x w rs x' w', run_ops x ops w = (rs, x', w') -> PInv x -> PInv x'.
+Proof.
+  induction ops as [|o ops IH]; intros x w rs x' w' H HP.
+  - cbn [run_ops] in H. inversion H; subst. exact HP.
+  - rewrite run_ops_cons in H.
+    destruct (run_op x o w) as [[res1 x1] w1] eqn:E1.
+    destruct (run_ops x1 ops w1) as [[rs2 x2] w2] eqn:E2.
+    inversion H; subst; clear H. eapply IH; [exact E2|]. eapply pinv_step; eassumption.
+Qed.
+
+Lemma PInv_init r part cfg x0 : ctx_new r part cfg = Some x0 -> PInv x0.
+Proof. intros H. apply ctx_new_fields in H. apply PInv_raw. destruct H as [_ [_ [-> _]]]. exact I. Qed.
+
+Lemma pend_free_unmask a : pend_free (option_map unmask a) -> pend_free a.
+Proof.
+  intros [H|[g [H Hg]]].
+  - left. destruct a; [discriminate|reflexivity].
+  - right. destruct a as [f|]; [|discriminate]. exists f. split; [reflexivity|].
+    cbn in H. inversion H; subst. exact Hg.
+Qed.
+
+(* C11_pong_pending: a read that delivers Ping p and leaves the connection Active has parked pong p *)
+Lemma pong_parked x w p x' w' :
+  PInv x -> read x w = (ROk (MPing p), x', w') -> x_state x' = Active ->
+  x_state x = Active /\ x_additional x' = Some (frame_pong p).
+Proof.
+  intros HP H Hs. apply read_spec in H. destruct H as [_ [_ [[A [B [a [C D]]]]|[A _]]]]; [|contradiction].
+  split; [exact A|]. rewrite D. apply pend_set_free, pend_free_unmask.
+  unfold PInv in HP. rewrite A in HP.
+  destruct (Moves_pend _ _ _ _ C) as [->| ->]; [apply pend_inv_active_free; exact HP|left; reflexivity].
+Qed.
+
+Lemma pong_parked_run r part cfg x0 w0 ops rs x w p x' w' :
+  ctx_new r part cfg = Some x0 -> run_ops x0 ops w0 = (rs, x, w) ->
+  read x w = (ROk (MPing p), x', w') -> x_state x' = Active ->
+  x_additional x' = Some (frame_pong p).
+Proof.
+  intros Hn Hr H Hs. eapply pong_parked; [|exact H|exact Hs].
+  eapply pinv_run; [exact Hr|]. eapply PInv_init; exact Hn.
+Qed.
+
+(* in a state that is not Active a delivered Ping changes nothing in additional_send: closing has begun *)
+
+(* C11: the parked frame is never lost: it stays parked, or is queued, unless a newer reply supersedes it *)
+Definition supersedes (o : op) (res : op_result) : Prop :=
+  match o with
+  | OpWrite (MPong _) | OpWrite (MClose _) | OpClose _ => True
+  | OpRead => (exists p, res = ResMsg (ROk (MPing p))) \/ (exists c, res = ResMsg (ROk (MClose c)))
+  | _ => False
+  end.
+
+Definition still_parked (f : frame) (x' : ctx) : Prop :=
+  exists f', x_additional x' = Some f' /\ unmask f' = unmask f.
+Definition now_queued (f : frame) (w w' : world) : Prop :=
+  exists pre f', queued (w_log w') = queued (w_log w) ++ pre ++ [f'] /\ unmask f' = unmask f.
+
+Lemma QQ_inv_queued w w' l : ext w w' l -> QQ w' = QQ w ++ uq (queued l).
+Proof. unfold QQ, ext. intros ->. rewrite queued_app, uq_app. reflexivity. Qed.
+
+Lemma uq_snoc_inv l pre g : uq l = pre ++ [g] -> exists pre' f', l = pre' ++ [f'] /\ unmask f' = g /\ uq pre' = pre.
+Proof.
+  intros H. destruct l as [|a l] using rev_ind.
+  - destruct pre; discriminate.
+  - unfold uq in H. rewrite map_app in H. cbn [map] in H. apply app_inj_tail in H. destruct H as [H1 H2].
+    exists l, a. repeat split; assumption.
+Qed.
+
+(* every function only appends to the log *)
+Lemma Sends_ext x w x' w' : Sends x w x' w' -> exists l, ext w w' l.
+Proof. intros [l [H _]]. exists l. exact H. Qed.
+
+Lemma Moves_parked_or_queued x w x' w' f ins l :
+  x_additional x = Some f -> ext w w' l ->
+  Moves (QQ w ++ ins) (PP x) (QQ w') (PP x') ->
+  still_parked f x' \/ now_queued f w w'.
+Proof.
+  intros Ha El HM. assert (HP : PP x = Some (unmask f)) by (unfold PP; rewrite Ha; reflexivity).
+  destruct HM as [[_ HM]|[HM _]].
+  - left. rewrite HP in HM. unfold PP in HM. destruct (x_additional x') as [f'|] eqn:Ea'; [|discriminate].
+    exists f'. split; [exact Ea'|]. cbn [option_map] in HM. congruence.
+  - right. rewrite HP, (QQ_inv_queued _ _ _ El), <- app_assoc in HM. apply app_inv_head in HM.
+    cbn [olist] in HM. apply uq_snoc_inv in HM. destruct HM as [pre' [f' [Hl [Hu _]]]].
+    exists pre', f'. split; [|exact Hu]. unfold ext in El. rewrite El, queued_app, Hl. reflexivity.
+Qed.
+
+Definition Ext (w w' : world) : Prop := exists l, ext w w' l.
+Lemma Ext_refl w : Ext w w. Proof. exists []. apply ext_refl. Qed.
+Lemma Ext_trans a b c : Ext a b -> Ext b c -> Ext a c.
+Proof. intros [l1 H1] [l2 H2]. exists (l1 ++ l2). eapply ext_trans; eassumption. Qed.
+
+Lemma flush_Ext x w r x' w' : flush x w = (r, x', w') -> Ext w w'.
+Proof. intros H. apply flush_Sends in H. destruct H as [H _]. exact (Sends_ext _ _ _ _ H). Qed.
+
+Lemma close_Ext x c w r x' w' : close x c w = (r, x', w') -> Ext w w'.
+Proof. unfold close. destruct (x_state x); apply flush_Ext. Qed.
+
+Lemma write_msg_Ext x m w r x' w' : write x m w = (r, x', w') -> Ext w w'.
+Proof.
+  unfold write. destruct (is_terminated (x_state x)); [intros H; inversion H; apply Ext_refl|].
+  destruct (negb (is_active (x_state x))); [intros H; inversion H; apply Ext_refl|].
+  assert (Hdata : forall f,
+    (let '(r, x1, w1) := write_ x (Some f) w in
+      match r with
+      | ROk true => flush x1 w1
+      | ROk false => (ROk tt, x1, w1)
+      | RErr e => (RErr e, x1, w1)
+      | RPanic s => (RPanic s, x1, w1)
+      | ROutOfFuel => (ROutOfFuel, x1, w1)
+      end) = (r, x', w') -> Ext w w').
+  { intros f. destruct (write_ x (Some f) w) as [[r1 x1] w1] eqn:E1.
+    apply write_Sends, Sends_ext in E1.
+    destruct r1 as [[|]|e|s|]; intros H; try (inversion H; subst; exact E1).
+    apply flush_Ext in H. eapply Ext_trans; eassumption. }
+  destruct m as [d|d|d|d|c|f]; try apply Hdata.
+  - destruct (write_ (set_additional x (frame_pong d)) None w) as [[r1 x1] w1] eqn:E1.
+    apply write_Sends, Sends_ext in E1. intros H. destruct r1; inversion H; subst; exact E1.
+  - apply close_Ext.
+Qed.
+
+Lemma read_pre_Ext x w r0 x0 w0 : read_pre x w = (r0, x0, w0) -> Ext w w0.
+Proof.
+  unfold read_pre.
+  destruct ((match x_additional x with Some _ => true | None => false end) || x_unflushed x).
+  - destruct (flush x w) as [[r x1] w1] eqn:Ef. apply flush_Ext in Ef.
+    intros H. destruct r as [u|e|s|]; try (inversion H; subst; exact Ef).
+    destruct e as [| |k| | | |]; try (inversion H; subst; exact Ef).
+    destruct k; inversion H; subst; exact Ef.
+  - destruct (role_eqb (x_role x) Server && negb (can_read (x_state x))).
+    + destruct (write_out_buffer (x_codec x) w) as [[rw c'] w1] eqn:Ew.
+      apply write_out_buffer_sends in Ew. destruct Ew as [l [El _]].
+      intros H. destruct rw; inversion H; subst; exists l; exact El.
+    + intros H. inversion H; subst. apply Ext_refl.
+Qed.
+
+Lemma rmf_Ext x w r x' w' : read_message_frame x w = (r, x', w') -> Ext w w'.
+Proof. intros H. apply rmf_spec in H. destruct H as [_ [_ [_ [[l [Hl _]] _]]]]. exists l. exact Hl. Qed.
+
+Lemma read_loop_Ext n : forall x w r x' w', read_loop n x w = (r, x', w') -> Ext w w'.
+Proof.
+  induction n as [|n IH]; intros x w r x' w' H.
+  - cbn [read_loop] in H. inversion H; subst. apply Ext_refl.
+  - rewrite read_loop_unfold in H.
+    destruct (read_pre x w) as [[r0 x0] w0] eqn:Ep. apply read_pre_Ext in Ep.
+    destruct r0 as [u|e|s|]; try (inversion H; subst; exact Ep).
+    destruct (read_message_frame x0 w0) as [[r1 x1] w1] eqn:Em. apply rmf_Ext in Em.
+    pose proof (Ext_trans _ _ _ Ep Em) as E1.
+    destruct r1 as [[m|]|e|s|]; try (inversion H; subst; exact E1).
+    apply IH in H. eapply Ext_trans; eassumption.
+Qed.
+
+Lemma read_Ext x w r x' w' : read x w = (r, x', w') -> Ext w w'.
+Proof.
+  unfold read. destruct (is_terminated (x_state x)); [intros H; inversion H; apply Ext_refl|].
+  apply read_loop_Ext.
+Qed.
+
+Lemma run_op_Ext x o w res x' w' : run_op x o w = (res, x', w') -> Ext w w'.
+Proof.
+  destruct o as [|m| |c| | |wbs mx]; cbn [run_op].
+  - destruct (read x w) as [[r x1] w1] eqn:E. intros H; inversion H; subst. eapply read_Ext; exact E.
+  - destruct (write x m w) as [[r x1] w1] eqn:E. intros H; inversion H; subst. eapply write_msg_Ext; exact E.
+  - destruct (flush x w) as [[r x1] w1] eqn:E. intros H; inversion H; subst. eapply flush_Ext; exact E.
+  - destruct (close x c w) as [[r x1] w1] eqn:E. intros H; inversion H; subst. eapply close_Ext; exact E.
+  - intros H; inversion H; subst. apply Ext_refl.
+  - intros H; inversion H; subst. apply Ext_refl.
+  - destruct (config_valid _); intros H; inversion H; subst; apply Ext_refl.
+Qed.
+
+Lemma pong_step x o w res x' w' f :
+  run_op x o w = (res, x', w') -> x_additional x = Some f ->
+  still_parked f x' \/ now_queued f w w' \/ supersedes o res.
+Proof.
+  intros H Ha. destruct (run_op_Ext _ _ _ _ _ _ H) as [l El].
+  assert (Hmv : forall ins, Moves (QQ w ++ ins) (PP x) (QQ w') (PP x') ->
+                still_parked f x' \/ now_queued f w w' \/ supersedes o res).
+  { intros ins HM. destruct (Moves_parked_or_queued x w x' w' f ins l Ha El HM); auto. }
+  assert (Hmv0 : Moves (QQ w) (PP x) (QQ w') (PP x') ->
+                still_parked f x' \/ now_queued f w w' \/ supersedes o res).
+  { intros HM. apply (Hmv []). rewrite app_nil_r. exact HM. }
+  assert (Hsame : x_additional x' = x_additional x -> still_parked f x' \/ now_queued f w w' \/ supersedes o res).
+  { intros E. left. exists f. split; [congruence|reflexivity]. }
+  clear El.
+  destruct o as [|m| |c| | |wbs mx]; cbn [run_op] in H.
+  - destruct (read x w) as [[r x1] w1] eqn:E. inversion H; subst; clear H.
+    apply read_spec in E. destruct E as [_ [_ E]].
+    destruct r as [m|e|s|]; try (apply Hmv0; apply E).
+    destruct m as [b|b|b|b|cl|g]; try (apply Hmv0; apply E).
+    + right. right. left. exists b. reflexivity.
+    + right. right. right. exists cl. reflexivity.
+  - destruct (write x m w) as [[r x1] w1] eqn:E. inversion H; subst; clear H.
+    apply write_msg_spec in E. destruct E as [_ [_ [_ [[A [-> ->]]|[A E]]]]]; [apply Hsame; reflexivity|].
+    destruct m as [d|d|d|d|c|g]; try (destruct E as [_ [ins [_ HM]]]; exact (Hmv ins HM));
+      right; right; exact I.
+  - destruct (flush x w) as [[r x1] w1] eqn:E. inversion H; subst; clear H.
+    apply flush_keeps in E. apply Hmv0, E.
+  - right. right. exact I.
+  - inversion H; subst. apply Hsame. reflexivity.
+  - inversion H; subst. apply Hsame. reflexivity.
+  - destruct (config_valid _); inversion H; subst; apply Hsame; reflexivity.
+Qed.
+
+Lemma run_ops_Ext ops : forall x w rs x' w', run_ops x ops w = (rs, x', w') -> Ext w w'.
+Proof.
+  induction ops as [|o ops IH]; intros x w rs x' w' H.
+  - cbn [run_ops] in H. inversion H; subst. apply Ext_refl.
+  - rewrite run_ops_cons in H.
+    destruct (run_op x o w) as [[res1 x1] w1] eqn:E1.
+    destruct (run_ops x1 ops w1) as [[rs2 x2] w2] eqn:E2.
+    inversion H; subst; clear H. eapply Ext_trans; [eapply run_op_Ext; exact E1|eapply IH; exact E2].
+Qed.
+
+Definition was_queued (f : frame) (w w' : world) : Prop :=
+  exists pre f' post, queued (w_log w') = queued (w_log w) ++ pre ++ [f'] ++ post /\ unmask f' = unmask f.
+
+Lemma was_queued_later f w w1 w2 : was_queued f w w1 -> Ext w1 w2 -> was_queued f w w2.
+Proof.
+  intros [pre [f' [post [Hq Hu]]]] [l El]. exists pre, f', (post ++ queued l). split; [|exact Hu].
+  unfold ext in El. rewrite El, queued_app, Hq, <- !app_assoc. reflexivity.
+Qed.
+
+Lemma was_queued_earlier f w w1 w2 : Ext w w1 -> was_queued f w1 w2 -> was_queued f w w2.
+Proof.
+  intros [l El] [pre [f' [post [Hq Hu]]]]. exists (queued l ++ pre), f', post. split; [|exact Hu].
+  unfold ext in El. rewrite Hq, El, queued_app, <- !app_assoc. reflexivity.
+Qed.
+
+(* over any run in which nothing supersedes it, a parked frame stays parked or has been queued *)
+Lemma pong_kept_run ops : forall x w rs x' w' f,
+  run_ops x ops w = (rs, x', w') -> x_additional x = Some f ->
+  Forall2 (fun o rn => ~ supersedes o (fst rn)) ops rs ->
+  still_parked f x' \/ was_queued f w w'.
+Proof.
+  induction ops as [|o ops IH]; intros x w rs x' w' f H Ha Hns.
+  - cbn [run_ops] in H. inversion H; subst. left. exists f. split; [exact Ha|reflexivity].
+  - rewrite run_ops_cons in H.
+    destruct (run_op x o w) as [[res1 x1] w1] eqn:E1.
+    destruct (run_ops x1 ops w1) as [[rs2 x2] w2] eqn:E2.
+    inversion H; subst; clear H.
+    inversion Hns as [|? ? ? ? Hns1 Hns2]; subst. cbn [fst] in Hns1.
+    pose proof (run_op_Ext _ _ _ _ _ _ E1) as X1. pose proof (run_ops_Ext _ _ _ _ _ _ E2) as X2.
+    destruct (pong_step _ _ _ _ _ _ f E1 Ha) as [[f1 [Ha1 Hu1]]|[[pre [f' [Hq Hu]]]|Hs]]; [| |contradiction].
+    + destruct (IH _ _ _ _ _ f1 E2 Ha1 Hns2) as [[f2 [Ha2 Hu2]]|Hq].
+      * left. exists f2. split; [exact Ha2|congruence].
+      * right. apply (was_queued_earlier _ _ _ _ X1).
+        destruct Hq as [pre [f' [post [Hq Hu]]]]. exists pre, f', post. split; [exact Hq|congruence].
+    + right. apply (was_queued_later f w w1 w'); [|exact X2].
+      exists pre, f', []. split; [rewrite Hq; reflexivity|exact Hu].
+Qed.
+
+(* ------------------------------------------------------------------------------------------ *)
+(* 11. C11: order and no invention                                                              *)
+(* ------------------------------------------------------------------------------------------ *)
+
+Inductive Subseq {A : Type} : list A -> list A -> Prop :=
+| ss_nil : Subseq [] []
+| ss_skip a l1 l2 : Subseq l1 l2 -> Subseq l1 (a :: l2)
+| ss_take a l1 l2 : Subseq l1 l2 -> Subseq (a :: l1) (a :: l2).
+
+Lemma Subseq_nil_l {A} (l : list A) : Subseq [] l.
+Proof. induction l; constructor; assumption. Qed.
+
+Lemma Subseq_refl {A} (l : list A) : Subseq l l.
+Proof. induction l; constructor; assumption. Qed.
+
+Lemma Subseq_nil_r {A} (l : list A) : Subseq l [] -> l = [].
+Proof. intros H. inversion H. reflexivity. Qed.
+
+Lemma Subseq_trans {A} (l1 l2 l3 : list A) : Subseq l1 l2 -> Subseq l2 l3 -> Subseq l1 l3.
+Proof.
+  intros H1 H2. revert l1 H1. induction H2 as [|a l2 l3 H2 IH|a l2 l3 H2 IH]; intros l1 H1.
+  - exact H1.
+  - apply ss_skip, IH, H1.
+  - inversion H1; subst.
+    + apply ss_skip, IH. assumption.
+    + apply ss_take, IH. assumption.
+Qed.
+
+Lemma Subseq_app {A} (l1 l2 m1 m2 : list A) : Subseq l1 l2 -> Subseq m1 m2 -> Subseq (l1 ++ m1) (l2 ++ m2).
+Proof. intros H1 H2. induction H1; cbn [app]; [exact H2| |]; constructor; assumption. Qed.
+
+Lemma Subseq_app_l {A} (l m : list A) : Subseq l (l ++ m).
+Proof. rewrite <- (app_nil_r l) at 1. apply Subseq_app; [apply Subseq_refl|apply Subseq_nil_l]. Qed.
+
+Lemma Subseq_app_r {A} (l m : list A) : Subseq m (l ++ m).
+Proof. change m with ([] ++ m) at 1. apply Subseq_app; [apply Subseq_nil_l|apply Subseq_refl]. Qed.
+
+Lemma Subseq_length {A} (l1 l2 : list A) : Subseq l1 l2 -> (length l1 <= length l2)%nat.
+Proof. induction 1; cbn [length]; lia. Qed.
+
+Lemma Subseq_In {A} (l1 l2 : list A) a : Subseq l1 l2 -> In a l1 -> In a l2.
+Proof. induction 1; cbn [In]; intuition. Qed.
+
+(* payloads of the pong frames of a list *)
+Definition ppl (l : list frame) : list bytes := map f_payload (filter is_pong l).
+
+Lemma ppl_app a b : ppl (a ++ b) = ppl a ++ ppl b.
+Proof. unfold ppl. rewrite filter_app, map_app. reflexivity. Qed.
+
+Lemma ppl_uq l : ppl (uq l) = ppl l.
+Proof.
+  induction l as [|f l IH]; [reflexivity|]. unfold ppl, uq in *. cbn [map filter].
+  rewrite is_pong_unmask. destruct (is_pong f); cbn [map]; rewrite IH; reflexivity.
+Qed.
+
+(* pong payloads queued or parked, in order *)
+Definition pongs (x : ctx) (w : world) : list bytes := ppl (oseq x w).
+
+Lemma pongs_raw x w : pongs x w = ppl (queued (w_log w) ++ olist (x_additional x)).
+Proof.
+  unfold pongs, oseq, QQ, PP. rewrite !ppl_app, ppl_uq. f_equal.
+  destruct (x_additional x) as [f|]; [|reflexivity]. exact (ppl_uq [f]).
+Qed.
+
+(* where pongs come from: a Ping delivered by read, or a Pong written by the user *)
+Definition pong_src (o : op) (res : op_result) : list bytes :=
+  match o, res with
+  | OpWrite (MPong d), _ => [d]
+  | OpRead, ResMsg (ROk (MPing p)) => [p]
+  | _, _ => []
+  end.
+
+Fixpoint pong_srcs (ops : list op) (rs : list (op_result * N)) : list bytes :=
+  match ops, rs with
+  | o :: ops', rn :: rs' => pong_src o (fst rn) ++ pong_srcs ops' rs'
+  | _, _ => []
+  end.
+
+Lemma ppl_pend_set_pong p d : Subseq (ppl (olist (pend_set p (frame_pong d)))) (ppl (olist p) ++ [d]).
+Proof.
+  destruct p as [f|]; [|apply Subseq_refl]. cbn [pend_set].
+  destruct (is_pong f) eqn:Ef.
+  - apply Subseq_app_r.
+  - unfold ppl. cbn [olist filter]. rewrite Ef. apply Subseq_nil_l.
+Qed.
+
+Lemma ppl_pend_set_close p c : Subseq (ppl (olist (pend_set p (frame_close c)))) (ppl (olist p) ++ []).
+Proof.
+  rewrite app_nil_r. destruct p as [f|]; [|apply Subseq_nil_l]. cbn [pend_set].
+  destruct (is_pong f) eqn:Ef; [apply Subseq_nil_l|apply Subseq_refl].
+Qed.
+
+Lemma order_set q p q' pa g src :
+  Moves q p q' pa ->
+  Subseq (ppl (olist (pend_set pa g))) (ppl (olist pa) ++ src) ->
+  exists l, ppl q' ++ ppl (olist (pend_set pa g)) = ppl q ++ l /\ Subseq l (ppl (olist p) ++ src).
+Proof.
+  intros [[-> ->]|[-> ->]] H.
+  - eexists. split; [reflexivity|exact H].
+  - exists (ppl (olist p) ++ ppl (olist (pend_set None g))). split; [rewrite ppl_app, app_assoc; reflexivity|].
+    apply Subseq_app; [apply Subseq_refl|exact H].
+Qed.
+
+Lemma order_moves q p q' p' ins src :
+  Moves (q ++ ins) p q' p' -> ppl ins = [] ->
+  exists l, ppl q' ++ ppl (olist p') = ppl q ++ l /\ Subseq l (ppl (olist p) ++ src).
+Proof.
+  intros HM Hins. exists (ppl (olist p)). split; [|apply Subseq_app_l].
+  rewrite <- !ppl_app, (Moves_seq _ _ _ _ HM), !ppl_app, Hins, app_nil_r. reflexivity.
+Qed.
+
+Lemma msg_frame_not_pong m : no_raw_ctl (OpWrite m) -> ppl (map unmask (olist (msg_frame m))) = [].
+Proof.
+  destruct m as [d|d|d|d|c|f]; try reflexivity. cbn [no_raw_ctl msg_frame olist map].
+  intros H. unfold ppl. cbn [filter]. rewrite is_pong_unmask, (not_ctl_not_pong f H). reflexivity.
+Qed.
+
+Lemma order_step x o w res x' w' :
+  run_op x o w = (res, x', w') -> no_raw_ctl o ->
+  exists l, pongs x' w' = ppl (QQ w) ++ l /\ Subseq l (ppl (olist (PP x)) ++ pong_src o res).
+Proof.
+  intros H Hraw. unfold pongs, oseq. rewrite ppl_app.
+  assert (Hmv : forall ins, Moves (QQ w ++ ins) (PP x) (QQ w') (PP x') -> ppl ins = [] ->
+     exists l, ppl (QQ w') ++ ppl (olist (PP x')) = ppl (QQ w) ++ l /\
+               Subseq l (ppl (olist (PP x)) ++ pong_src o res)).
+  { intros ins HM Hins. eapply order_moves; eassumption. }
+  assert (Hmv0 : Moves (QQ w) (PP x) (QQ w') (PP x') ->
+     exists l, ppl (QQ w') ++ ppl (olist (PP x')) = ppl (QQ w) ++ l /\
+               Subseq l (ppl (olist (PP x)) ++ pong_src o res)).
+  { intros HM. apply (Hmv []); [rewrite app_nil_r; exact HM|reflexivity]. }
+  destruct o as [|m| |c| | |wbs mx]; cbn [run_op] in H.
+  - destruct (read x w) as [[r x1] w1] eqn:E. inversion H; subst; clear H.
+    apply read_spec in E. destruct E as [_ [_ E]].
+    destruct r as [m|e|s|]; try (apply Hmv0; apply E).
+    destruct m as [b|b|b|b|cl|g]; try (apply Hmv0; apply E).
+    + destruct E as [[A [B [a [C D]]]]|[A [B C]]]; [|apply Hmv0; exact C].
+      unfold PP at 1. rewrite D, pend_set_unmask, unmask_pong. cbn [pong_src].
+      eapply order_set; [exact C|apply ppl_pend_set_pong].
+    + destruct E as [[A [B [_ [a [C D]]]]]|[A [B C]]]; [|apply Hmv0; exact C].
+      unfold PP at 1. rewrite D, pend_set_unmask, unmask_close. cbn [pong_src].
+      eapply order_set; [exact C|apply ppl_pend_set_close].
+  - destruct (write x m w) as [[r x1] w1] eqn:E. inversion H; subst; clear H.
+    apply write_msg_spec in E. destruct E as [_ [_ [_ [[A [-> ->]]|[A E]]]]].
+    { apply Hmv0, Moves_refl. }
+    assert (Hdata : (st_step Active (x_state x') /\
+           exists ins, (ins = [] \/ ins = map unmask (olist (msg_frame m))) /\
+                       Moves (QQ w ++ ins) (PP x) (QQ w') (PP x')) ->
+       exists l, ppl (QQ w') ++ ppl (olist (PP x')) = ppl (QQ w) ++ l /\
+               Subseq l (ppl (olist (PP x)) ++ pong_src (OpWrite m) (ResUnit r))).
+    { intros [_ [ins [Hins HM]]]. apply (Hmv ins HM).
+      destruct Hins as [->| ->]; [reflexivity|apply msg_frame_not_pong; exact Hraw]. }
+    destruct m as [d|d|d|d|c|f]; try (apply Hdata; exact E).
+    + destruct E as [_ C]. cbn [pong_src].
+      exists (ppl (olist (pend_set (PP x) (frame_pong d)))). split; [|apply ppl_pend_set_pong].
+      rewrite <- !ppl_app, (Moves_seq _ _ _ _ C). reflexivity.
+    + destruct E as [_ C]. exists []. split; [|apply Subseq_nil_l].
+      rewrite <- !ppl_app, (Moves_seq _ _ _ _ C), ppl_app. reflexivity.
+  - destruct (flush x w) as [[r x1] w1] eqn:E. inversion H; subst; clear H.
+    apply flush_keeps in E. apply Hmv0, E.
+  - destruct (close x c w) as [[r x1] w1] eqn:E. inversion H; subst; clear H.
+    apply close_spec in E. destruct E as [_ [_ [_ [[A [B C]]|[A [B C]]]]]]; [|apply Hmv0; exact C].
+    exists []. split; [|apply Subseq_nil_l].
+    rewrite <- !ppl_app, (Moves_seq _ _ _ _ C), ppl_app. reflexivity.
+  - inversion H; subst. apply Hmv0, Moves_refl.
+  - inversion H; subst. apply Hmv0, Moves_refl.
+  - destruct (config_valid _); inversion H; subst; apply Hmv0; unfold PP; cbn [x_additional]; apply Moves_refl.
+Qed.
+
+Lemma order_run ops : forall x w rs x' w',
+  run_ops x ops w = (rs, x', w') -> Forall no_raw_ctl ops ->
+  Subseq (pongs x' w') (pongs x w ++ pong_srcs ops rs).
+Proof.
+  induction ops as [|o ops IH]; intros x w rs x' w' H Hraw.
+  - cbn [run_ops] in H. inversion H; subst. cbn [pong_srcs]. rewrite app_nil_r. apply Subseq_refl.
+  - rewrite run_ops_cons in H.
+    destruct (run_op x o w) as [[res1 x1] w1] eqn:E1.
+    destruct (run_ops x1 ops w1) as [[rs2 x2] w2] eqn:E2.
+    inversion H; subst; clear H.
+    inversion Hraw as [|? ? Hraw1 Hraw2]; subst.
+    destruct (order_step _ _ _ _ _ _ E1 Hraw1) as [l [Hl Hs]].
+    pose proof (IH _ _ _ _ _ E2 Hraw2) as H2.
+    eapply Subseq_trans; [exact H2|]. cbn [pong_srcs fst].
+    rewrite Hl. unfold pongs, oseq. rewrite ppl_app, <- !app_assoc.
+    apply Subseq_app; [apply Subseq_refl|]. rewrite app_assoc.
+    apply Subseq_app; [exact Hs|apply Subseq_refl].
+Qed.
+
+(* the Ping payloads delivered by the reads of a run, in order *)
+Definition ping_of (res : op_result) : list bytes :=
+  match res with ResMsg (ROk (MPing p)) => [p] | _ => [] end.
+Definition pings_delivered (rs : list (op_result * N)) : list bytes :=
+  flat_map (fun rn => ping_of (fst rn)) rs.
+
+Definition is_user_pong (o : op) : Prop := match o with OpWrite (MPong _) => True | _ => False end.
+
+Lemma pong_srcs_auto ops : forall rs,
+  Forall (fun o => ~ is_user_pong o) ops -> Subseq (pong_srcs ops rs) (pings_delivered rs).
+Proof.
+  induction ops as [|o ops IH]; intros rs Hnu.
+  - apply Subseq_nil_l.
+  - destruct rs as [|rn rs]; [apply Subseq_nil_l|]. inversion Hnu as [|? ? H1 H2]; subst.
+    cbn [pong_srcs pings_delivered flat_map]. apply Subseq_app; [|apply IH; exact H2].
+    destruct o as [|m| |c| | |wbs mx]; try apply Subseq_nil_l.
+    + destruct (fst rn) as [r| |]; try apply Subseq_nil_l.
+      destruct r as [m| | |]; try apply Subseq_nil_l. destruct m; try apply Subseq_nil_l. apply Subseq_refl.
+    + destruct m; try apply Subseq_nil_l. exfalso. apply H1. exact I.
+Qed.
+
+Lemma pongs_init r part cfg x0 w0 :
+  ctx_new r part cfg = Some x0 -> filter is_pong (queued (w_log w0)) = [] -> pongs x0 w0 = [].
+Proof.
+  intros H Hq. apply ctx_new_fields in H. destruct H as [_ [_ [Ha _]]].
+  rewrite pongs_raw, Ha. cbn [olist]. rewrite app_nil_r. unfold ppl. rewrite Hq. reflexivity.
+Qed.
+
+(* C11_order_no_invention *)
+Lemma pong_order r part cfg x0 w0 ops rs x' w' :
+  ctx_new r part cfg = Some x0 -> filter is_pong (queued (w_log w0)) = [] ->
+  Forall no_raw_ctl ops ->
+  run_ops x0 ops w0 = (rs, x', w') ->
+  Subseq (ppl (queued (w_log w') ++ olist (x_additional x'))) (pong_srcs ops rs).
+Proof.
+  intros Hn Hq Hraw H. pose proof (order_run _ _ _ _ _ _ H Hraw) as Ho.
+  rewrite (pongs_init _ _ _ _ _ Hn Hq), pongs_raw in Ho. exact Ho.
+Qed.
+
+Lemma pong_order_auto r part cfg x0 w0 ops rs x' w' :
+  ctx_new r part cfg = Some x0 -> filter is_pong (queued (w_log w0)) = [] ->
+  Forall no_raw_ctl ops -> Forall (fun o => ~ is_user_pong o) ops ->
+  run_ops x0 ops w0 = (rs, x', w') ->
+  Subseq (ppl (queued (w_log w'))) (pings_delivered rs).
+Proof.
+  intros Hn Hq Hraw Hnu H.
+  eapply Subseq_trans; [|apply pong_srcs_auto; exact Hnu].
+  eapply Subseq_trans; [|eapply pong_order; eassumption].
+  rewrite ppl_app. apply Subseq_app_l.
+Qed.
+
+(* ------------------------------------------------------------------------------------------ *)
+(* 12. C11: the pong reaches the wire                                                           *)
+(* ------------------------------------------------------------------------------------------ *)
+
+Lemma try_take_out ms c :
+  match try_take ms c with
+  | TkPayload _ _ _ c' | TkNeedMore _ c' | TkErr _ c' => c_out c' = c_out c
+  | TkPanic _ => True
+  end.
+Proof.
+  unfold try_take. destruct (c_hdr c) as [[h len]|] eqn:Eh.
+  - rewrite Eh. destruct (ms <? len); [reflexivity|]. destruct (len <=? blen (c_in c)); reflexivity.
+  - destruct (header_parse (c_in c)) as [h len k| |i|]; try reflexivity.
+    + cbn [c_hdr set_hdr set_in]. destruct (ms <? len); [reflexivity|].
+      destruct (len <=? blen _); reflexivity.
+    + rewrite Eh. reflexivity.
+Qed.
+
+Lemma read_frame_loop_out ms rds : forall c log r c' rds' log',
+  read_frame_loop ms rds c log = (r, c', rds', log') -> c_out c' = c_out c.
+Proof.
+  induction rds as [|o rds IH]; intros c log r c' rds' log' H; cbn [read_frame_loop] in H;
+    pose proof (try_take_out ms c) as Ht; destruct (try_take ms c) as [h len p c0|n c0|e c0|s];
+    try (inversion H; subst; clear H; first [exact Ht|reflexivity]).
+  destruct o as [bs| |k]; try (inversion H; subst; clear H; exact Ht).
+  destruct bs as [|b bs]; [inversion H; subst; clear H; exact Ht|].
+  apply IH in H. rewrite H. exact Ht.
+Qed.
+
+Lemma read_frame_out ms um au c w r c' w' : read_frame ms um au c w = (r, c', w') -> c_out c' = c_out c.
+Proof.
+  unfold read_frame. destruct (read_frame_loop _ _ _ _) as [[[r0 c0] rds0] log0] eqn:E.
+  apply read_frame_loop_out in E. intros H.
+  destruct r0 as [[[[h len] p]|]|e|s|]; try (inversion H; subst; exact E).
+  destruct (negb (blen p =? len)); [inversion H; subst; exact E|].
+  destruct um; [|inversion H; subst; exact E].
+  destruct (h_mask h); [inversion H; subst; exact E|].
+  destruct au; inversion H; subst; exact E.
+Qed.
+
+Lemma do_close_codec x cl r x' : do_close x cl = (r, x') -> x_codec x' = x_codec x.
+Proof. intros H. apply do_close_spec in H. apply H. Qed.
+
+(* read_message_frame never touches out_buffer *)
+Lemma rmf_out x w r x' w' :
+  read_message_frame x w = (r, x', w') -> c_out (x_codec x') = c_out (x_codec x).
+Proof.
+  unfold read_message_frame.
+  destruct (read_frame _ _ _ _ _) as [[r0 c1] w1] eqn:Erf. apply read_frame_out in Erf.
+  destruct (check_connection_reset r0 (x_state x)) as [r0' s1].
+  set (x1 := set_state (set_codec x c1) s1).
+  assert (X1 : c_out (x_codec x1) = c_out (x_codec x)) by exact Erf. clearbody x1.
+  Ltac rmf_out_fin H :=
+    match type of H with (pair (pair _ _) _) = _ => idtac end;
+    inversion H; subst; clear H; cbn [x_codec set_incomplete]; try assumption.
+  destruct r0' as [[f|]|e|s|]; intros H; try (rmf_out_fin H).
+  2:{ destruct (x_state x1); rmf_out_fin H. }
+  destruct (negb (can_read (x_state x1))); [rmf_out_fin H|].
+  destruct (h_rsv1 (f_hdr f) || h_rsv2 (f_hdr f) || h_rsv3 (f_hdr f)); [rmf_out_fin H|].
+  destruct (role_eqb (x_role x1) Client && _); [rmf_out_fin H|].
+  destruct (h_opcode (f_hdr f)) as [d|ctl].
+  - destruct d as [| | |i].
+    + destruct (x_incomplete x1) as [msg|]; [|rmf_out_fin H].
+      destruct (incmsg_extend msg (f_payload f) (cfg_max_message_size (x_cfg x1))) as [re msg'].
+      destruct re as [u|e|s|]; try (rmf_out_fin H).
+      destruct (h_fin (f_hdr f)); [|rmf_out_fin H].
+      destruct (incmsg_complete msg') as [m|e|s|]; rmf_out_fin H.
+    + destruct (x_incomplete x1) as [msg|]; [rmf_out_fin H|].
+      destruct (h_fin (f_hdr f)).
+      * destruct (check_max_size _ _); try (rmf_out_fin H).
+        destruct (is_utf8 (f_payload f)); rmf_out_fin H.
+      * destruct (incmsg_extend _ _ _) as [re inc1]. destruct re as [u|e|s|]; rmf_out_fin H.
+    + destruct (x_incomplete x1) as [msg|]; [rmf_out_fin H|].
+      destruct (h_fin (f_hdr f)).
+      * destruct (check_max_size _ _); rmf_out_fin H.
+      * destruct (incmsg_extend _ _ _) as [re inc1]. destruct re as [u|e|s|]; rmf_out_fin H.
+    + destruct (x_incomplete x1) as [msg|]; rmf_out_fin H.
+  - destruct (negb (h_fin (f_hdr f))); [rmf_out_fin H|].
+    destruct (125 <? blen (f_payload f)); [rmf_out_fin H|].
+    destruct ctl as [| | |i].
+    + destruct (frame_into_close (f_payload f)) as [cl|e|s|]; try (rmf_out_fin H).
+      destruct (do_close x1 cl) as [rd x2] eqn:Ed. apply do_close_codec in Ed.
+      destruct rd as [[c|]|e|s|]; inversion H; subst; clear H; rewrite Ed; exact X1.
+    + inversion H; subst; clear H. destruct (is_active (x_state x1)); [rewrite set_additional_codec|]; exact X1.
+    + rmf_out_fin H.
+    + rmf_out_fin H.
+Qed.
+
+Lemma rmf_Sends x w r x' w' : read_message_frame x w = (r, x', w') -> Sends x w x' w'.
+Proof.
+  intros H. pose proof (rmf_out _ _ _ _ _ H) as Ho.
+  apply rmf_spec in H. destruct H as [_ [_ [_ [[l [Hl Hrd]] _]]]].
+  exists l. split; [exact Hl|]. unfold SendsL.
+  rewrite (wire_rd_events _ Hrd), (queued_rd_events _ Hrd), Ho. cbn. rewrite app_nil_r. reflexivity.
+Qed.
+
+Lemma close_Sends x c w r x' w' : close x c w = (r, x', w') -> Sends x w x' w'.
+Proof.
+  unfold close. destruct (x_state x); intros H; apply flush_Sends in H; destruct H as [H _]; exact H.
+Qed.
+
+Lemma write_msg_Sends x m w r x' w' : write x m w = (r, x', w') -> Sends x w x' w'.
+Proof.
+  unfold write. destruct (is_terminated (x_state x)); [intros H; inversion H; apply Sends_refl|].
+  destruct (negb (is_active (x_state x))); [intros H; inversion H; apply Sends_refl|].
+  assert (Hdata : forall f,
+    (let '(r, x1, w1) := write_ x (Some f) w in
+      match r with
+      | ROk true => flush x1 w1
+      | ROk false => (ROk tt, x1, w1)
+      | RErr e => (RErr e, x1, w1)
+      | RPanic s => (RPanic s, x1, w1)
+      | ROutOfFuel => (ROutOfFuel, x1, w1)
+      end) = (r, x', w') -> Sends x w x' w').
+  { intros f. destruct (write_ x (Some f) w) as [[r1 x1] w1] eqn:E1.
+    apply write_Sends in E1.
+    destruct r1 as [[|]|e|s|]; intros H; try (inversion H; subst; exact E1).
+    apply flush_Sends in H. destruct H as [H _]. eapply Sends_trans; eassumption. }
+  destruct m as [d|d|d|d|c|f]; try apply Hdata.
+  - destruct (write_ (set_additional x (frame_pong d)) None w) as [[r1 x1] w1] eqn:E1.
+    apply write_Sends in E1. intros H.
+    assert (S : Sends x w x1 w1).
+    { destruct E1 as [l [El S]]. exists l. split; [exact El|]. rewrite set_additional_codec in S. exact S. }
+    destruct r1; inversion H; subst; exact S.
+  - apply close_Sends.
+Qed.
+
+Lemma read_pre_Sends x w r0 x0 w0 : read_pre x w = (r0, x0, w0) -> Sends x w x0 w0.
+Proof.
+  unfold read_pre.
+  destruct ((match x_additional x with Some _ => true | None => false end) || x_unflushed x).
+  - destruct (flush x w) as [[r x1] w1] eqn:Ef. apply flush_Sends in Ef. destruct Ef as [Ef _].
+    intros H. destruct r as [u|e|s|]; try (inversion H; subst; exact Ef).
+    destruct e as [| |k| | | |]; try (inversion H; subst; exact Ef).
+    destruct k; inversion H; subst; exact Ef.
+  - destruct (role_eqb (x_role x) Server && negb (can_read (x_state x))).
+    + destruct (write_out_buffer (x_codec x) w) as [[rw c'] w1] eqn:Ew.
+      apply write_out_buffer_sends in Ew. destruct Ew as [l [El [_ [S _]]]].
+      intros H. destruct rw; inversion H; subst; exists l; split; assumption.
+    + intros H. inversion H; subst. apply Sends_refl.
+Qed.
+
+Lemma read_loop_Sends n : forall x w r x' w', read_loop n x w = (r, x', w') -> Sends x w x' w'.
+Proof.
+  induction n as [|n IH]; intros x w r x' w' H.
+  - cbn [read_loop] in H. inversion H; subst. apply Sends_refl.
+  - rewrite read_loop_unfold in H.
+    destruct (read_pre x w) as [[r0 x0] w0] eqn:Ep. apply read_pre_Sends in Ep.
+    destruct r0 as [u|e|s|]; try (inversion H; subst; exact Ep).
+    destruct (read_message_frame x0 w0) as [[r1 x1] w1] eqn:Em. apply rmf_Sends in Em.
+    pose proof (Sends_trans _ _ _ _ _ _ Ep Em) as E1.
+    destruct r1 as [[m|]|e|s|]; try (inversion H; subst; exact E1).
+    apply IH in H. eapply Sends_trans; eassumption.
+Qed.
+
+Lemma read_Sends x w r x' w' : read x w = (r, x', w') -> Sends x w x' w'.
+Proof.
+  unfold read. destruct (is_terminated (x_state x)); [intros H; inversion H; apply Sends_refl|].
+  apply read_loop_Sends.
+Qed.
+
+Lemma run_op_Sends x o w res x' w' : run_op x o w = (res, x', w') -> Sends x w x' w'.
+Proof.
+  destruct o as [|m| |c| | |wbs mx]; cbn [run_op].
+  - destruct (read x w) as [[r x1] w1] eqn:E. intros H; inversion H; subst. eapply read_Sends; exact E.
+  - destruct (write x m w) as [[r x1] w1] eqn:E. intros H; inversion H; subst. eapply write_msg_Sends; exact E.
+  - destruct (flush x w) as [[r x1] w1] eqn:E. intros H; inversion H; subst.
+    apply flush_Sends in E. apply E.
+  - destruct (close x c w) as [[r x1] w1] eqn:E. intros H; inversion H; subst. eapply close_Sends; exact E.
+  - intros H; inversion H; subst. apply Sends_refl.
+  - intros H; inversion H; subst. apply Sends_refl.
+  - destruct (config_valid _); intros H; inversion H; subst; try apply Sends_refl.
+    exists []. split; [apply ext_refl|]. exact (SendsL_nil (c_out (x_codec x))).
+Qed.
+
+Lemma run_ops_Sends ops : forall x w rs x' w', run_ops x ops w = (rs, x', w') -> Sends x w x' w'.
+Proof.
+  induction ops as [|o ops IH]; intros x w rs x' w' H.
+  - cbn [run_ops] in H. inversion H; subst. apply Sends_refl.
+  - rewrite run_ops_cons in H.
+    destruct (run_op x o w) as [[res1 x1] w1] eqn:E1.
+    destruct (run_ops x1 ops w1) as [[rs2 x2] w2] eqn:E2.
+    inversion H; subst; clear H. eapply Sends_trans; [eapply run_op_Sends; exact E1|eapply IH; exact E2].
+Qed.
+
+(* bytes written ++ bytes still buffered = encoding of the frames queued so far *)
+Lemma stream_inv r part cfg x0 w0 ops rs x' w' :
+  ctx_new r part cfg = Some x0 -> w_log w0 = [] ->
+  run_ops x0 ops w0 = (rs, x', w') ->
+  wire (w_log w') ++ c_out (x_codec x') = encq (queued (w_log w')).
+Proof.
+  intros Hn Hl H. apply run_ops_Sends in H. destruct H as [l [El S]].
+  unfold ext in El. rewrite Hl in El. cbn [app] in El. rewrite El.
+  unfold SendsL in S. rewrite S.
+  unfold ctx_new in Hn. destruct (config_valid cfg); [|discriminate]. inversion Hn. reflexivity.
+Qed.
+
+(* is the write buffer too full to take frame f now? (the test made by FrameCodec::buffer_frame) *)
+Definition buffer_full (x : ctx) (w : world) (f : frame) : bool :=
+  c_max_out (x_codec x) <? frame_len (out_frame x w f) + blen (c_out (x_codec x)).
+
+Lemma buffer_frame_full_iff x f w r x' w' :
+  buffer_frame x f w = (r, x', w') ->
+  (buffer_full x w f = true /\ r = RErr (EWriteBufferFull (out_frame x w f))) \/
+  (buffer_full x w f = false /\ not_full r).
+Proof.
+  unfold buffer_frame, buffer_full, out_frame. intros H.
+  destruct (x_role x) eqn:Er.
+  - destruct (codec_buffer_frame (x_codec x) f w) as [[r0 c'] w2] eqn:E.
+    destruct (check_connection_reset r0 (x_state x)) as [r1 s1] eqn:Ec.
+    inversion H; subst; clear H.
+    apply ccr_spec in Ec. destruct Ec as [_ [Hnf [Hf _]]].
+    apply codec_buffer_frame_spec in E. destruct E as [[-> [_ [_ Hb]]]|[Hn [_ Hb]]].
+    + left. split; [exact Hb|]. destruct (Hf f eq_refl) as [-> _]. reflexivity.
+    + right. split; [exact Hb|apply Hnf; exact Hn].
+  - destruct (w_next_key w) as [k wk] eqn:Ek.
+    destruct (codec_buffer_frame (x_codec x) _ wk) as [[r0 c'] w2] eqn:E.
+    destruct (check_connection_reset r0 (x_state x)) as [r1 s1] eqn:Ec.
+    inversion H; subst; clear H. cbn [fst].
+    apply ccr_spec in Ec. destruct Ec as [_ [Hnf [Hf _]]].
+    apply codec_buffer_frame_spec in E. destruct E as [[-> [_ [_ Hb]]]|[Hn [_ Hb]]].
+    + left. split; [exact Hb|]. destruct (Hf _ eq_refl) as [-> _]. reflexivity.
+    + right. split; [exact Hb|apply Hnf; exact Hn].
+Qed.
+
+(* with room in the write buffer, _write(None) takes the parked frame out of additional_send *)
+Lemma write_add_room x0 w0 f r1 x1 w1 :
+  x_additional x0 = Some f -> buffer_full x0 w0 f = false ->
+  write_add x0 w0 = (r1, x1, w1) -> x_additional x1 = None.
+Proof.
+  intros Ha Hroom. unfold write_add. rewrite Ha.
+  destruct (buffer_frame (set_additional_raw x0 None) f w0) as [[rb xb] wb] eqn:Eb.
+  pose proof (buffer_frame_full_iff _ _ _ _ _ _ Eb) as Hf.
+  apply buffer_frame_spec in Eb. destruct Eb as [_ [Hab _]]. cbn [x_additional set_additional_raw] in Hab.
+  destruct Hf as [[Hf _]|[_ Hn]].
+  { unfold buffer_full, out_frame in *. cbn [x_codec x_role set_additional_raw] in Hf. congruence. }
+  intros H. destruct rb as [u|e|s|]; try (inversion H; subst; exact Hab).
+  destruct e; try (inversion H; subst; exact Hab). exfalso. eapply Hn. reflexivity.
+Qed.
+
+Lemma flush_room x w f r x' w' :
+  x_additional x = Some f -> buffer_full x w f = false ->
+  flush x w = (r, x', w') -> x_additional x' = None.
+Proof.
+  intros Ha Hroom. unfold flush. destruct (write_ x None w) as [[r0 x0] w0] eqn:E0.
+  assert (H0 : x_additional x0 = None).
+  { rewrite write_unfold in E0. destruct (write_add x w) as [[r1 x1] w1] eqn:E1.
+    pose proof (write_add_room _ _ _ _ _ _ Ha Hroom E1) as Hn.
+    apply write_tail_spec in E0. destruct E0 as [_ [_ [_ [_ [Ha' _]]]]]. congruence. }
+  destruct r0 as [u|e|s|]; intros H; try (inversion H; subst; exact H0).
+  destruct (write_out_buffer (x_codec x0) w0) as [[r1 c1] w1].
+  destruct r1 as [u1|e|s|]; try (inversion H; subst; exact H0).
+  destruct (w_flush w1) as [r2 w2]. destruct r2; inversion H; subst; exact H0.
+Qed.
+
+Lemma sent_core x w x' w' f ins l :
+  x_additional x = Some f -> x_additional x' = None ->
+  Moves (QQ w ++ ins) (PP x) (QQ w') (PP x') -> ext w w' l ->
+  uq (queued l) = ins ++ [unmask f].
+Proof.
+  intros Ha Ha' HM El.
+  assert (HP : PP x = Some (unmask f)) by (unfold PP; rewrite Ha; reflexivity).
+  assert (HP' : PP x' = None) by (unfold PP; rewrite Ha'; reflexivity).
+  destruct HM as [[_ HM]|[HM _]]; [congruence|].
+  rewrite HP, (QQ_inv_queued _ _ _ El), <- app_assoc in HM. apply app_inv_head in HM. exact HM.
+Qed.
+
+Lemma uq_single l g : uq l = [g] -> exists f', l = [f'] /\ unmask f' = g.
+Proof.
+  destruct l as [|a [|b l]]; try discriminate. cbn. intros H. exists a. split; [reflexivity|congruence].
+Qed.
+
+(* C11_pong_sent for flush: a successful flush with the frame taken out of additional_send has written
+   everything buffered before and then the frame, and ends with a successful transport flush *)
+Lemma flush_sent x w f x' w' :
+  x_additional x = Some f -> flush x w = (ROk tt, x', w') -> x_additional x' = None ->
+  exists f1 l, unmask f1 = unmask f /\
+    w_log w' = w_log w ++ l ++ [EvFlush FlOk] /\ queued l = [f1] /\
+    wire l = c_out (x_codec x) ++ frame_format f1 /\
+    c_out (x_codec x') = [] /\ x_unflushed x' = false.
+Proof.
+  intros Ha H Ha'. pose proof (flush_keeps _ _ _ _ _ H) as [_ [_ [_ [_ HM]]]].
+  apply flush_Sends in H. destruct H as [_ H]. destruct (H eq_refl) as [Hout [Hu [l [El S]]]].
+  assert (HM' : Moves (QQ w ++ []) (PP x) (QQ w') (PP x')) by (rewrite app_nil_r; exact HM).
+  pose proof (sent_core _ _ _ _ f [] _ Ha Ha' HM' El) as Hq.
+  rewrite queued_app in Hq. cbn [queued] in Hq. rewrite app_nil_r in Hq. cbn [app] in Hq.
+  apply uq_single in Hq. destruct Hq as [f1 [Hq Hf1]].
+  exists f1, l. split; [exact Hf1|]. split; [exact El|]. split; [exact Hq|].
+  unfold SendsL in S. rewrite app_nil_r, Hq in S. unfold encq in S. cbn [map concat] in S.
+  rewrite app_nil_r in S. repeat split; assumption.
+Qed.
+
+(* the rest of read() once its preliminary flush is done *)
+Definition read_go (n : nat) (x0 : ctx) (w0 : world) : res message * ctx * world :=
+  let '(r1, x1, w1) := read_message_frame x0 w0 in
+  match r1 with
+  | ROk (Some m) => (ROk m, x1, w1)
+  | ROk None => read_loop n x1 w1
+  | RErr e => (RErr e, x1, w1)
+  | RPanic s => (RPanic s, x1, w1)
+  | ROutOfFuel => (ROutOfFuel, x1, w1)
+  end.
+
+Definition read_fuel (x : ctx) (w : world) : nat := length (c_in (x_codec x)) + rd_bytes (w_rds w).
+
+Lemma read_go_Ext n x0 w0 r x' w' : read_go n x0 w0 = (r, x', w') -> Ext w0 w'.
+Proof.
+  unfold read_go. destruct (read_message_frame x0 w0) as [[r1 x1] w1] eqn:Em. apply rmf_Ext in Em.
+  destruct r1 as [[m|]|e|s|]; intros H; try (inversion H; subst; exact Em).
+  apply read_loop_Ext in H. eapply Ext_trans; eassumption.
+Qed.
+
+Definition must_flush (x : ctx) : Prop := (exists f, x_additional x = Some f) \/ x_unflushed x = true.
+
+Lemma must_flush_true x :
+  must_flush x -> (match x_additional x with Some _ => true | None => false end) || x_unflushed x = true.
+Proof. intros [[f ->]| ->]; [reflexivity|apply orb_true_r]. Qed.
+
+(* read() whose preliminary flush succeeds goes on to read with the flushed context *)
+Lemma read_flush_ok x w x1 w1 :
+  is_terminated (x_state x) = false -> must_flush x ->
+  flush x w = (ROk tt, x1, w1) ->
+  read x w = read_go (read_fuel x w) x1 w1.
+Proof.
+  intros Ht Hm Hf. unfold read. rewrite Ht. rewrite read_loop_unfold. unfold read_pre.
+  rewrite (must_flush_true x Hm), Hf. reflexivity.
+Qed.
+
+(* C11_blocked: read() whose preliminary flush hits WouldBlock remembers that (unflushed_additional)
+   and goes on to read all the same *)
+Lemma read_flush_blocked x w x1 w1 :
+  is_terminated (x_state x) = false -> must_flush x ->
+  flush x w = (RErr (EIo WouldBlock), x1, w1) ->
+  read x w = read_go (read_fuel x w) (set_unflushed x1 true) w1.
+Proof.
+  intros Ht Hm Hf. unfold read. rewrite Ht. rewrite read_loop_unfold. unfold read_pre.
+  rewrite (must_flush_true x Hm), Hf. reflexivity.
+Qed.
+
+(* whatever flush returns, the parked frame is still parked or has been queued, and no byte is lost *)
+Lemma flush_keeps_frame x w f r x' w' :
+  x_additional x = Some f -> flush x w = (r, x', w') ->
+  (still_parked f x' \/ now_queued f w w') /\
+  exists l, ext w w' l /\ wire l ++ c_out (x_codec x') = c_out (x_codec x) ++ encq (queued l).
+Proof.
+  intros Ha H. split.
+  - destruct (flush_Ext _ _ _ _ _ H) as [l El].
+    pose proof (flush_keeps _ _ _ _ _ H) as [_ [_ [_ [_ HM]]]].
+    apply (Moves_parked_or_queued x w x' w' f [] l Ha El). rewrite app_nil_r. exact HM.
+  - apply flush_Sends in H. destruct H as [[l [El S]] _]. exists l. split; [exact El|exact S].
+Qed.
+
+(* a context with unflushed_additional set flushes at the next read, and _write(None) asks for a flush *)
+Lemma unflushed_write_none x w :
+  x_additional x = None -> x_unflushed x = true ->
+  (role_eqb (x_role x) Server && closing_done (x_state x)) = false ->
+  write_ x None w = (ROk true, x, w).
+Proof.
+  intros Ha Hu Hs. rewrite write_unfold. unfold write_add, write_tail. rewrite Ha, Hu, Hs. reflexivity.
+Qed.
+
+(* _write(Some d) that returns Ok has queued d, and says whether the parked frame went out too *)
+Lemma write_ok_shape x d w b x' w' f :
+  x_additional x = Some f ->
+  write_ x (Some d) w = (ROk b, x', w') ->
+  Moves (QQ w ++ [unmask d]) (PP x) (QQ w') (PP x') /\
+  ((b = true /\ x_additional x' = None) \/ (b = false /\ exists f', x_additional x' = Some f')).
+Proof.
+  intros Ha. rewrite write_unfold.
+  destruct (buffer_frame x d w) as [[r0 x0] w0] eqn:E0.
+  apply buffer_frame_spec in E0. destruct E0 as [_ [Ha0 [_ [_ [_ [_ Hq]]]]]].
+  destruct r0 as [u|e|s|]; try discriminate.
+  destruct Hq as [[Hq _]|[_ Hq]]; [discriminate|].
+  assert (HP0 : PP x0 = PP x) by (unfold PP; rewrite Ha0; reflexivity).
+  pose proof (QQ_snoc _ _ _ Hq) as HQ0. rewrite unmask_out_frame in HQ0.
+  destruct (write_add x0 w0) as [[r1 x1] w1] eqn:E1. intros H.
+  pose proof (write_tail_spec _ _ _ _ _ _ H) as [_ [_ [_ [_ [_ [_ [_ Hok]]]]]]].
+  destruct (Hok b eq_refl) as [-> [-> ->]]. clear H Hok.
+  pose proof (write_add_spec _ _ _ _ _ E1) as [_ [_ [_ [_ [HM _]]]]].
+  split; [rewrite <- HQ0, <- HP0; exact HM|].
+  unfold write_add in E1. rewrite Ha0, Ha in E1.
+  destruct (buffer_frame (set_additional_raw x0 None) f w0) as [[rb xb] wb] eqn:Eb.
+  apply buffer_frame_spec in Eb. destruct Eb as [_ [Hab _]]. cbn [x_additional set_additional_raw] in Hab.
+  destruct rb as [u1|e|s|]; try discriminate.
+  - inversion E1; subst. left. split; [reflexivity|exact Hab].
+  - destruct e; try discriminate. inversion E1; subst. right. split; [reflexivity|].
+    eexists. rewrite set_additional_pend, Hab. reflexivity.
+Qed.
+
+Lemma uq_nil l : uq l = [] -> l = [].
+Proof. destruct l; [reflexivity|discriminate]. Qed.
+
+Lemma uq_two l a b : uq l = [a; b] -> exists a' b', l = [a'; b'] /\ unmask a' = a /\ unmask b' = b.
+Proof.
+  destruct l as [|x [|y [|z l]]]; try discriminate. cbn. intros H. exists x, y.
+  split; [reflexivity|]. split; congruence.
+Qed.
+
+(* C11_pong_sent for write: a data write that returns Ok with nothing left parked has written the data
+   frame, then the parked frame, and flushed *)
+Lemma write_sent x m d w f x' w' :
+  x_state x = Active -> msg_frame m = Some d ->
+  x_additional x = Some f -> write x m w = (ROk tt, x', w') -> x_additional x' = None ->
+  exists d1 f1 l, unmask d1 = unmask d /\ unmask f1 = unmask f /\
+    w_log w' = w_log w ++ l ++ [EvFlush FlOk] /\ queued l = [d1; f1] /\
+    wire l = c_out (x_codec x) ++ frame_format d1 ++ frame_format f1 /\
+    c_out (x_codec x') = [].
+Proof.
+  intros Hs Hm Ha H Ha'. unfold write in H. rewrite Hs in H. cbn [is_terminated is_active negb] in H.
+  assert (Hdata :
+    (let '(r, x1, w1) := write_ x (Some d) w in
+      match r with
+      | ROk true => flush x1 w1
+      | ROk false => (ROk tt, x1, w1)
+      | RErr e => (RErr e, x1, w1)
+      | RPanic s => (RPanic s, x1, w1)
+      | ROutOfFuel => (ROutOfFuel, x1, w1)
+      end) = (ROk tt, x', w')).
+  { destruct m; cbn [msg_frame] in Hm; try discriminate; inversion Hm; subst; exact H. }
+  clear H. destruct (write_ x (Some d) w) as [[r1 x1] w1] eqn:E1.
+  destruct r1 as [b|e|s|]; try discriminate.
+  pose proof (write_ok_shape _ _ _ _ _ _ _ Ha E1) as [HM [[-> Ha1]|[-> [f' Ha1]]]].
+  2:{ inversion Hdata; subst. congruence. }
+  apply write_Sends in E1. destruct E1 as [l1 [El1 S1]].
+  pose proof (sent_core _ _ _ _ f [unmask d] _ Ha Ha1 HM El1) as Hq1.
+  cbn [app] in Hq1. apply uq_two in Hq1. destruct Hq1 as [d1 [f1 [Hq1 [Hd1 Hf1]]]].
+  pose proof (flush_keeps _ _ _ _ _ Hdata) as [_ [_ [_ [_ HM2]]]].
+  apply flush_Sends in Hdata. destruct Hdata as [_ Hf]. destruct (Hf eq_refl) as [Hout [_ [l2 [El2 S2]]]].
+  assert (Hq2 : queued l2 = []).
+  { assert (HP1 : PP x1 = None) by (unfold PP; rewrite Ha1; reflexivity).
+    assert (HQ : QQ w' = QQ w1).
+    { destruct HM2 as [[HQ _]|[HQ _]]; [exact HQ|]. rewrite HP1 in HQ. cbn [olist] in HQ.
+      rewrite app_nil_r in HQ. exact HQ. }
+    rewrite (QQ_inv_queued _ _ _ El2) in HQ. rewrite <- (app_nil_r (QQ w1)) in HQ at 2.
+    apply app_inv_head, uq_nil in HQ. rewrite queued_app in HQ. apply app_eq_nil in HQ. apply HQ. }
+  exists d1, f1, (l1 ++ l2). split; [exact Hd1|]. split; [exact Hf1|].
+  split; [unfold ext in *; rewrite El2, El1, <- !app_assoc; reflexivity|].
+  split; [rewrite queued_app, Hq1, Hq2, app_nil_r; reflexivity|].
+  split; [|exact Hout].
+  unfold SendsL in S1, S2. rewrite Hq2 in S2. cbn [encq map concat] in S2. rewrite !app_nil_r in S2.
+  rewrite wire_app, S2, S1, Hq1. unfold encq. cbn [map concat]. rewrite app_nil_r. reflexivity.
+Qed.
+
+(* C11_pong_sent for read: the preliminary flush of read() sends the parked frame; reading then goes on *)
+Lemma read_sent x w f x1 w1 r x' w' :
+  is_terminated (x_state x) = false -> x_additional x = Some f ->
+  flush x w = (ROk tt, x1, w1) -> x_additional x1 = None ->
+  read x w = (r, x', w') ->
+  read x w = read_go (read_fuel x w) x1 w1 /\
+  exists f1 l l2, unmask f1 = unmask f /\
+    w_log w' = w_log w ++ l ++ [EvFlush FlOk] ++ l2 /\ queued l = [f1] /\
+    wire l = c_out (x_codec x) ++ frame_format f1.
+Proof.
+  intros Ht Ha Hf Ha1 Hr.
+  assert (Hm : must_flush x) by (left; exists f; exact Ha).
+  pose proof (read_flush_ok x w x1 w1 Ht Hm Hf) as Hgo. split; [exact Hgo|].
+  rewrite Hgo in Hr. apply read_go_Ext in Hr. destruct Hr as [l2 El2].
+  destruct (flush_sent _ _ _ _ _ Ha Hf Ha1) as [f1 [l [Hu [El [Hq [Hw _]]]]]].
+  exists f1, l, l2. split; [exact Hu|]. split; [|split; assumption].
+  unfold ext in El2. rewrite El2, El, <- !app_assoc. reflexivity.
+Qed.
+
+(* C11_blocked *)
+Lemma read_blocked x w f x1 w1 :
+  is_terminated (x_state x) = false -> x_additional x = Some f ->
+  flush x w = (RErr (EIo WouldBlock), x1, w1) ->
+  read x w = read_go (read_fuel x w) (set_unflushed x1 true) w1 /\
+  (still_parked f x1 \/ now_queued f w w1) /\
+  (exists l, ext w w1 l /\ wire l ++ c_out (x_codec x1) = c_out (x_codec x) ++ encq (queued l)) /\
+  must_flush (set_unflushed x1 true).
+Proof.
+  intros Ht Ha Hf.
+  assert (Hm : must_flush x) by (left; exists f; exact Ha).
+  split; [exact (read_flush_blocked x w x1 w1 Ht Hm Hf)|].
+  destruct (flush_keeps_frame _ _ _ _ _ _ Ha Hf) as [H1 H2].
+  split; [exact H1|]. split; [exact H2|]. right. reflexivity.
+Qed.
+
+Lemma encq_In f l : In f l -> exists a b, encq l = a ++ frame_format f ++ b.
+Proof.
+  intros H. apply in_split in H. destruct H as [l1 [l2 ->]].
+  exists (encq l1), (encq l2). rewrite encq_app. unfold encq at 2. cbn [map concat]. reflexivity.
+Qed.
+
+(* after any run, a successful flush leaves every queued frame on the wire, followed by a transport flush *)
+Lemma flushed_all r part cfg x0 w0 ops rs x w x' w' :
+  ctx_new r part cfg = Some x0 -> w_log w0 = [] ->
+  run_ops x0 ops w0 = (rs, x, w) ->
+  flush x w = (ROk tt, x', w') ->
+  wire (w_log w') = encq (queued (w_log w')) /\
+  (exists l, w_log w' = l ++ [EvFlush FlOk]) /\
+  forall f1, In f1 (queued (w_log w')) -> exists a b, wire (w_log w') = a ++ frame_format f1 ++ b.
+Proof.
+  intros Hn Hl Hr Hf.
+  assert (Hw : wire (w_log w') = encq (queued (w_log w'))).
+  { apply run_ops_Sends in Hr. pose proof (flush_Sends _ _ _ _ _ Hf) as [S2 Hok].
+    destruct (Hok eq_refl) as [Hout _].
+    destruct (Sends_trans _ _ _ _ _ _ Hr S2) as [l [El S]].
+    unfold ext in El. rewrite Hl in El. cbn [app] in El. rewrite El.
+    unfold SendsL in S. rewrite Hout, app_nil_r in S. rewrite S.
+    unfold ctx_new in Hn. destruct (config_valid cfg); [|discriminate]. inversion Hn. reflexivity. }
+  split; [exact Hw|]. split.
+  - apply flush_Sends in Hf. destruct Hf as [_ Hok]. destruct (Hok eq_refl) as [_ [_ [l [El _]]]].
+    exists (w_log w ++ l). unfold ext in El. rewrite El, app_assoc. reflexivity.
+  - intros f1 Hin. rewrite Hw. apply encq_In, Hin.
+Qed.
+
+(* once the peer's Close has been seen (or the connection is terminated) a further frame is refused:
+   nothing is reported, nothing is parked *)
+Lemma rmf_after_close x w f c1 w1 :
+  can_read (x_state x) = false ->
+  the_read_frame x w = (ROk (Some f), c1, w1) ->
+  read_message_frame x w = (RErr (EProtocol ReceivedAfterClosing), set_codec x c1, w1).
+Proof.
+  unfold the_read_frame, read_message_frame. intros Hcr Erf. rewrite Erf. cbn [check_connection_reset].
+  assert (E1 : set_state (set_codec x c1) (x_state x) = set_codec x c1) by (destruct x; reflexivity).
+  rewrite E1. cbn [x_state set_codec]. rewrite Hcr. reflexivity.
+Qed.
+
+(* ------------------------------------------------------------------------------------------ *)
+(* 13. C12 end to end: from the bytes of a Close frame in in_buffer                             *)
+(* ------------------------------------------------------------------------------------------ *)
+
+Lemma in_range_from k : forall s n, s <= n < s + N.of_nat k -> In n (range_from s k).
+Proof.
+  induction k as [|k IH]; intros s n H; [lia|]. cbn [range_from].
+  destruct (N.eq_dec s n) as [->|Hne]; [left; reflexivity|]. right. apply IH. lia.
+Qed.
+
+Definition len_ok (n : N) : bool :=
+  (N.land n 128 =? 0) && (N.land n 127 =? n) && (N.land (N.lor n 128) 127 =? n) &&
+  negb (N.land (N.lor n 128) 128 =? 0) && (N.lor n 0 =? n).
+
+Lemma len_sweep : forallb len_ok (range_from 0 126) = true.
+Proof. vm_compute. reflexivity. Qed.
+
+Lemma len_facts n : n <= 125 ->
+  N.land n 128 = 0 /\ N.land n 127 = n /\ N.land (N.lor n 128) 127 = n /\
+  N.land (N.lor n 128) 128 <> 0 /\ N.lor n 0 = n.
+Proof.
+  intros Hn. pose proof len_sweep as Hs. rewrite forallb_forall in Hs.
+  specialize (Hs n (in_range_from 126 0 n ltac:(lia))). unfold len_ok in Hs.
+  repeat (apply andb_prop in Hs; destruct Hs as [Hs ?]). repeat split; lia.
+Qed.
+
+Definition close_hdr (m : option key) : header := mkHeader true false false false (OCtl Close) m.
+
+Lemma header_parse_close_unmasked n r :
+  n <= 125 -> header_parse (136 :: n :: r) = POk (close_hdr None) n 2.
+Proof.
+  intros Hn. destruct (len_facts n Hn) as [H1 [H2 _]].
+  unfold header_parse, bit. change (opcode_of_u8 (N.land 136 15)) with (Some (OCtl Close)).
+  rewrite H1, H2. unfold lf_for_byte.
+  replace (n =? 126) with false by lia. replace (n =? 127) with false by lia.
+  cbn [lf_extra]. change (8 <? 0) with false. replace (blen r <? 0) with false by lia.
+  change (0 <? 0) with false. cbn [negb N.eqb is_reserved]. reflexivity.
+Qed.
+
+Lemma header_parse_close_masked n a b c d r :
+  n <= 125 ->
+  header_parse (136 :: N.lor n 128 :: a :: b :: c :: d :: r) = POk (close_hdr (Some (a, b, c, d))) n 6.
+Proof.
+  intros Hn. destruct (len_facts n Hn) as [_ [_ [H3 [H4 _]]]].
+  unfold header_parse, bit. change (opcode_of_u8 (N.land 136 15)) with (Some (OCtl Close)).
+  rewrite H3. replace (N.land (N.lor n 128) 128 =? 0) with false by lia. unfold lf_for_byte.
+  replace (n =? 126) with false by lia. replace (n =? 127) with false by lia.
+  cbn [lf_extra negb]. change (8 <? 0) with false.
+  replace (blen (a :: b :: c :: d :: r) <? 0) with false by lia.
+  change (0 <? 0) with false. cbn [is_reserved]. reflexivity.
+Qed.
+
+Lemma close_header_format m n :
+  n <= 125 ->
+  header_format (close_hdr m) n =
+  [136; match m with Some _ => N.lor n 128 | None => n end] ++ match m with Some k => key_bytes k | None => [] end.
+Proof.
+  intros Hn. destruct (len_facts n Hn) as [_ [_ [_ [_ H5]]]].
+  unfold header_format, lf_for_length. replace (n <? 126) with true by lia.
+  cbn [lf_length_byte h_mask close_hdr h_opcode h_fin h_rsv1 h_rsv2 h_rsv3 opcode_to_u8 flag].
+  change (N.lor (N.lor (N.lor (N.lor 8 128) 0) 0) 0) with 136.
+  destruct m as [k|]; cbn [flag app]; [reflexivity|]. rewrite H5. reflexivity.
+Qed.
+
+Lemma read_frame_loop_payload ms rds c log h len p c' :
+  try_take ms c = TkPayload h len p c' ->
+  read_frame_loop ms rds c log = (ROk (Some (h, len, p)), c', rds, log).
+Proof. intros H. destruct rds; cbn [read_frame_loop]; rewrite H; reflexivity. Qed.
+
+Lemma world_eta w : mkWorld (w_rds w) (w_wrs w) (w_fls w) (w_keys w) (w_log w) = w.
+Proof. destruct w; reflexivity. Qed.
+
+Lemma takeN_blen_app {A} (a b : list A) : takeN (blen a) (a ++ b) = a.
+Proof. unfold takeN, blen. rewrite Nat2N.id. apply firstn_length_app. Qed.
+Lemma dropN_blen_app {A} (a b : list A) : dropN (blen a) (a ++ b) = b.
+Proof. unfold dropN, blen. rewrite Nat2N.id. apply skipn_length_app. Qed.
+
+Lemma xor_cyc_invol k p : xor_cyc k (xor_cyc k p) = p.
+Proof.
+  revert k. induction p as [|b p IH]; intros k; [reflexivity|]. cbn [xor_cyc]. rewrite IH. f_equal.
+  rewrite N.lxor_assoc, N.lxor_nilpotent, N.lxor_0_r. reflexivity.
+Qed.
+
+Lemma xor_cyc_length k p : length (xor_cyc k p) = length p.
+Proof. revert k. induction p as [|b p IH]; intros k; [reflexivity|]. cbn [xor_cyc length]. rewrite IH. reflexivity. Qed.
+
+(* the model's encoding of a Close frame with payload pl, masked with m or not *)
+Definition close_bytes (m : option key) (pl : bytes) : bytes := frame_format (mkFrame (close_hdr m) pl).
+
+(* read_frame on a codec whose in_buffer starts with a complete Close frame *)
+Lemma try_take_close ms c m pl rest :
+  c_hdr c = None -> c_in c = close_bytes m pl ++ rest -> blen pl <= 125 -> blen pl <= ms ->
+  exists c', c_in c' = rest /\ c_out c' = c_out c /\
+    try_take ms c = TkPayload (close_hdr m) (blen pl)
+                      (match m with Some k => apply_mask k pl | None => pl end) c'.
+Proof.
+  intros Hh Hin Hn Hms. unfold close_bytes, frame_format in Hin.
+  cbn [f_hdr f_payload h_mask close_hdr] in Hin. rewrite (close_header_format m _ Hn) in Hin.
+  unfold try_take. rewrite Hh, Hin.
+  destruct m as [[[[a b] c0] d]|]; cbn [key_bytes app].
+  - rewrite (header_parse_close_masked _ a b c0 d _ Hn). cbn [c_hdr set_hdr set_in c_in].
+    replace (ms <? blen pl) with false by lia.
+    change (dropN 6 (136 :: N.lor (blen pl) 128 :: a :: b :: c0 :: d :: apply_mask (a, b, c0, d) pl ++ rest))
+      with (apply_mask (a, b, c0, d) pl ++ rest).
+    assert (Hl : blen (apply_mask (a, b, c0, d) pl) = blen pl).
+    { unfold blen, apply_mask. rewrite xor_cyc_length. reflexivity. }
+    replace (blen pl <=? blen (apply_mask (a, b, c0, d) pl ++ rest)) with true
+      by (unfold blen in *; rewrite app_length; lia).
+    rewrite <- Hl, takeN_blen_app, dropN_blen_app. eexists. split; [|split; [|reflexivity]]; reflexivity.
+  - rewrite (header_parse_close_unmasked _ _ Hn). cbn [c_hdr set_hdr set_in c_in].
+    replace (ms <? blen pl) with false by lia.
+    change (dropN 2 (136 :: blen pl :: pl ++ rest)) with (pl ++ rest).
+    replace (blen pl <=? blen (pl ++ rest)) with true by (unfold blen; rewrite app_length; lia).
+    rewrite takeN_blen_app, dropN_blen_app. eexists. split; [|split; [|reflexivity]]; reflexivity.
+Qed.
+
+(* the role-appropriate encoding: a server receives masked frames, a client unmasked ones *)
+Definition peer_mask_ok (r : role) (m : option key) : Prop :=
+  match r, m with Server, Some _ => True | Client, None => True | _, _ => False end.
+
+Lemma the_read_frame_close x w m pl rest :
+  c_hdr (x_codec x) = None -> c_in (x_codec x) = close_bytes m pl ++ rest ->
+  blen pl <= 125 -> blen pl <= limit_of (cfg_max_frame_size (x_cfg x)) ->
+  peer_mask_ok (x_role x) m ->
+  exists c1, c_in c1 = rest /\ c_out c1 = c_out (x_codec x) /\
+    the_read_frame x w = (ROk (Some (mkFrame (close_hdr None) pl)), c1, w).
+Proof.
+  intros Hh Hin Hn Hms Hm. unfold the_read_frame, read_frame.
+  destruct (try_take_close _ _ m pl rest Hh Hin Hn Hms) as [c' [Hc1 [Hc2 Ht]]].
+  rewrite (read_frame_loop_payload _ _ _ _ _ _ _ _ Ht), world_eta.
+  exists c'. split; [exact Hc1|]. split; [exact Hc2|].
+  destruct (x_role x), m as [k|]; cbn in Hm; try contradiction; cbn [role_eqb].
+  - replace (blen (apply_mask k pl) =? blen pl) with true
+      by (unfold blen, apply_mask; rewrite xor_cyc_length; lia).
+    cbn [negb h_mask close_hdr h_fin h_rsv1 h_rsv2 h_rsv3 h_opcode].
+    unfold apply_mask. rewrite xor_cyc_invol. reflexivity.
+  - replace (blen pl =? blen pl) with true by lia. reflexivity.
+Qed.
+
+(* C12_reply from bytes: an Active endpoint whose in_buffer starts with the encoding of a Close frame *)
+Lemma reply_from_bytes x w m rest p :
+  x_state x = Active -> pend_free (x_additional x) ->
+  c_hdr (x_codec x) = None ->
+  c_in (x_codec x) = close_bytes m (peer_close_payload p) ++ rest ->
+  blen (peer_close_payload p) <= 125 ->
+  blen (peer_close_payload p) <= limit_of (cfg_max_frame_size (x_cfg x)) ->
+  peer_mask_ok (x_role x) m -> peer_close_ok p ->
+  exists x',
+    read_message_frame x w = (ROk (Some (MClose (expected_reply p))), x', w) /\
+    x_state x' = ClosedByPeer /\
+    x_additional x' = Some (frame_close (expected_reply p)) /\
+    c_in (x_codec x') = rest /\
+    frame_into_close (f_payload (frame_close (expected_reply p))) = ROk (expected_reply p).
+Proof.
+  intros Hs Hfree Hh Hin Hn Hms Hm Hp.
+  destruct (the_read_frame_close x w m _ rest Hh Hin Hn Hms Hm) as [c1 [Hc1 [_ Erf]]].
+  assert (Hok : close_frame_ok (x_role x) (mkFrame (close_hdr None) (peer_close_payload p))).
+  { unfold close_frame_ok. cbn. repeat split. exact Hn. }
+  pose proof (peer_close_decodes p Hp) as Hdec.
+  pose proof (rmf_close_active x w _ c1 w _ Hs Erf Hok Hdec) as Hr.
+  eexists. split; [rewrite expected_reply_spec; exact Hr|].
+  match goal with |- context [set_additional ?a ?b] =>
+    destruct (set_additional_fields a b) as [_ [F2 [F3 _]]]; rewrite F3, F2 end.
+  split; [reflexivity|]. split; [|split; [exact Hc1|]].
+  - rewrite set_additional_pend. cbn [x_additional set_state set_codec].
+    rewrite (pend_set_free _ _ Hfree), expected_reply_spec. reflexivity.
+  - apply close_payload_roundtrip, expected_reply_wf, Hp.
 Qed.
